@@ -1,5 +1,6 @@
 """C10 - call_out fires exactly once, on time, and can be cancelled."""
 import os
+import re
 
 from nvlib import engine as E
 from nvlib.check import Prop
@@ -38,6 +39,9 @@ class C10(Prop):
                 "NV.C10.tie_headDec",
                 "NV.C10.tie_headDue_dec",
                 "NV.C10.tie_chunkPos",
+                "NV.C10.tie_byNameCond",
+                "NV.C10.tie_removeAllCond",
+                "NV.C10.removeAll_eq_spec",
                 "NV.C10.tie_dropCond",
                 "NV.C10.tie_infoSkip",
                 "NV.C10.tie_infoCount",
@@ -129,10 +133,12 @@ class C10(Prop):
                 "NV.C10.deltas_ok",
                 "NV.C10.handles_fit_int",
                 "NV.C10.handleC_exact",
-                "NV.C10.handleC_overflow_witness",
-                "NV.C10.C10_handles_Full_false",
                 "NV.C10.handleC_collision_witness",
+                "NV.C10.cutAtOverflow_id",
+                "NV.C10.model_satisfies_spec_int",
                 "NV.C10.time_left_fits_int"]
+    witness_theorems = ["NV.C10.ovf_witness", "NV.C10.C10_int_Full_false", "NV.C10.handleC_overflow_witness",
+                        "NV.C10.C10_handles_Full_false"]
     consts = [("calloutCycleSize", "CALLOUT_CYCLE_SIZE")]
     const_headers = ["lib/efuns/options.h"]
     quick_n = 300
@@ -188,6 +194,14 @@ class C10(Prop):
             # call_function_pointer's message names the clone ("/c10/obj#3"): reduced to a stable text
             if l.startswith("err *Owner (") and "of function pointer is destructed" in l:
                 l = "err *fp-owner-destructed"
+            # UBSan report of the handle computation: path, line and column removed
+            m = re.match(r"sanitizer .*call_out\.c:\d+:\d+: runtime error: (signed integer overflow: .*)$", l)
+            if m:
+                l = "sanitizer call_out.c: " + m.group(1)
+            # the order in which UBSan names the two factors is the compiler's choice: smaller one first
+            m = re.match(r"(sanitizer call_out\.c: signed integer overflow: )(\d+) \* (\d+)( cannot .*)$", l)
+            if m and int(m.group(2)) > int(m.group(3)):
+                l = m.group(1) + m.group(3) + " * " + m.group(2) + m.group(4)
             out.append(l)
         return out
 
